@@ -141,6 +141,21 @@ CHECKS = {
         'coefficient representation (_lin._coeff and the _addterm case analysis) is not modelled: it is exercised through the trees. '
         'Ten genuine defects found by this check were repaired (fix: commits, see known_findings.json).',
    technique='Lean 4 proof (structural induction over expression trees) with spec-vs-code correspondence'),
+ 'C12': dict(
+   category='proof',
+   text='A reference translation of piecewise-linear problems into linear programs is defined in Lean (Spec/PWL.lean: flattening of every '
+        'accepted expression component into a max/plus term, and the list of affine pieces of such a term) and proved exact for all '
+        'expression trees, lengths and values: the flattened term equals the formula, a term is below u iff all pieces are, so the emitted '
+        'program has the same feasible points and objective values as the problem that was written down; Lagrangian sufficiency and weak '
+        'duality for the multiplier criterion. The Lean driver emits that program for generated problems; op.solve() (dense, sparse, glpk) is '
+        'compared with it: status (either one accepted when a program is both primal and dual infeasible), optimal value, feasibility of the returned point in the original constraints, multiplier lengths and signs, '
+        'dual function value of the returned multipliers and infeasibility certificates through the same reference translation, '
+        'None-conventions. A corpus of minimised past failures runs first.',
+   design_ref='DESIGN.md 5 C12',
+   note='Trusted: Lean kernel, harness (generator, matrix assembly of emitted rows, GLPK as solver of the reference program, tolerance '
+        '1e-5 relative, box of radius 100 for dual function values). The construction inside op._inmatrixform / _aslinearineq is not '
+        'modelled: it is judged through its results. Genuine defects found and repaired: see known_findings.json.',
+   technique='Lean 4 proof of a reference translation (structural induction) + comparison of op.solve with the emitted program'),
  'C20': dict(
    category='proof',
    text='Lean theorems: the reduced state of a dense matrix rebuilds it (all shapes/typecodes); for every structurally valid sparse matrix the '
